@@ -259,4 +259,118 @@ theorem c13_writers_do_not_interleave (acts : List WAct) :
 example : framed ([WAct.acquire 1, .acquire 2, .writeHdr 1, .writeHdr 2, .writeData 1, .release 1, .acquire 2,
     .writeHdr 2].foldl wstep {}).log = some (some 2) := by decide
 
+/-! #### concurrent readers -/
+
+def RInv (s : RS) : Prop :=
+  (∀ i, s.pc i ≠ 0 → s.holder = some i) ∧
+  ∃ st, s.log.foldl racc (some none) = some st ∧ ∀ i, s.pc i = 2 → st = some i
+
+theorem rinv_step (s : RS) (a : RAct) (h : RInv s) : RInv (rstep s a) := by
+  obtain ⟨hmx, st, hst, h2⟩ := h
+  cases a with
+  | acquire i =>
+    simp only [rstep]
+    split
+    · rename_i hc
+      refine ⟨?_, st, hst, ?_⟩
+      · intro j hj
+        simp only [updPc] at hj
+        split at hj
+        · rename_i e; subst e; rfl
+        · have := hmx j hj; rw [hc.1] at this; simp at this
+      · intro j hj
+        simp only [updPc] at hj
+        split at hj
+        · simp at hj
+        · exact h2 j hj
+    · exact ⟨hmx, st, hst, h2⟩
+  | readHdr i due =>
+    simp only [rstep]
+    split
+    · rename_i hc
+      have hh : s.holder = some i := hmx i (by omega)
+      refine ⟨?_, some i, ?_, ?_⟩
+      · intro j hj
+        simp only [updPc] at hj
+        split at hj
+        · rename_i e; subst e; exact hh
+        · exact hmx j hj
+      · simp [List.foldl_append, hst, racc]
+      · intro j hj
+        simp only [updPc] at hj
+        split at hj
+        · rename_i e; subst e; rfl
+        · have := hmx j (by omega); rw [hh] at this
+          exact (Option.some.inj this) ▸ rfl
+    · exact ⟨hmx, st, hst, h2⟩
+  | readData i =>
+    simp only [rstep]
+    split
+    · rename_i hc
+      have hh : s.holder = some i := hmx i (by omega)
+      have hs : st = some i := h2 i hc
+      refine ⟨?_, none, ?_, ?_⟩
+      · intro j hj
+        simp only [updPc] at hj
+        split at hj
+        · rename_i e; subst e; exact hh
+        · exact hmx j hj
+      · simp [List.foldl_append, hst, hs, racc]
+      · intro j hj
+        simp only [updPc] at hj
+        split at hj
+        · simp at hj
+        · rename_i ne
+          have := hmx j (by omega); rw [hh] at this
+          exact absurd (Option.some.inj this).symm ne
+    · exact ⟨hmx, st, hst, h2⟩
+  | release i =>
+    simp only [rstep]
+    split
+    · rename_i hc
+      have hh : s.holder = some i := hmx i hc
+      refine ⟨?_, st, hst, ?_⟩
+      · intro j hj
+        simp only [updPc] at hj
+        split at hj
+        · simp at hj
+        · rename_i ne
+          have := hmx j hj; rw [hh] at this
+          exact absurd (Option.some.inj this).symm ne
+      · intro j hj
+        simp only [updPc] at hj
+        split at hj
+        · simp at hj
+        · exact h2 j hj
+    · exact ⟨hmx, st, hst, h2⟩
+
+theorem rinv_run (acts : List RAct) : RInv (acts.foldl rstep {}) := by
+  have : ∀ s, RInv s → RInv (acts.foldl rstep s) := by
+    induction acts with
+    | nil => intro s h; exact h
+    | cons a as ih => intro s h; exact ih _ (rinv_step s a h)
+  exact this {} ⟨by intro i hi; simp at hi, none, rfl, by intro i hi; simp at hi⟩
+
+/-- Under every interleaving of any number of reader threads — each may find a header without payload, a
+    rejected header, or have either transport read raise — every payload read directly follows the header
+    read of the same thread: no other thread's read falls between the header and the payload of a message,
+    and at most one thread is inside `read_message`'s critical section. -/
+theorem c13_readers_do_not_interleave (acts : List RAct) :
+    rframed (acts.foldl rstep {}).log = true ∧
+    (∀ i j, (acts.foldl rstep {}).pc i ≠ 0 → (acts.foldl rstep {}).pc j ≠ 0 → i = j) := by
+  obtain ⟨hmx, st, hst, _⟩ := rinv_run acts
+  refine ⟨by simp [rframed, hst], ?_⟩
+  intro i j hi hj
+  have a := hmx i hi; have b := hmx j hj
+  rw [a] at b; exact Option.some.inj b
+
+/-- non-vacuity: two readers alternate, one message without payload, one read failing mid-message -/
+example : rframed ([RAct.acquire 1, .acquire 2, .readHdr 1 true, .readHdr 2 true, .readData 1, .release 1, .acquire 2,
+    .readHdr 2 false, .release 2, .acquire 1, .readHdr 1 true, .release 1, .acquire 2, .readHdr 2 true,
+    .readData 2].foldl rstep {}).log = true := by decide
+
+/-- what the lock is for: without it (a reader entering while another is between header and payload)
+    the acceptor rejects the log -/
+example : rframed [(1, true), (2, true), (1, false)] = false := by decide
+
 end OpenHTF.AdbFrame
